@@ -46,7 +46,7 @@ def finish(a):
         if sder != 1: sc["der_y"] = 5.0
     d = P.case(vg=True, vc="control", **a)
     d["scales"] = sc
-    d["cons"] = [P.con("bc0", scale=scon), P.con("x_le", scale=scon), P.con("xu_between", scale=scon), P.con("x_vec_ge", scale=scon), P.con("x_vec_mixed", scale=scon), P.con("x_vec_mixed_lb", scale=scon), P.con("x_le_xv", scale=scon), P.con("vc_ge")]
+    d["cons"] = [P.con("bc0", scale=scon), P.con("bcf", scale=scon), P.con("bc_mixed", scale=scon), P.con("x_le", scale=scon), P.con("xu_between", scale=scon), P.con("x_vec_ge", scale=scon), P.con("x_vec_mixed", scale=scon), P.con("x_vec_mixed_lb", scale=scon), P.con("x_le_xv", scale=scon), P.con("vc_ge")]
     # scaled constraints on the finer grids (every call site that forwards scale=)
     d["cons"].append(P.con("x_le", grid="integrator", scale=scon))
     if a["method"] == "DC":
@@ -96,6 +96,10 @@ def cases(tier):
 
 def chain_cases():
     out = []
+    for what in ("control", "variable", "variable_control"):
+        for sc in (0.25, 4.0):
+            for meth in ("MS", "SS", "DC"):
+                out.append(dict(kind="domain_scale", what=what, scale=sc, method=meth))
     for order in (1, 2, 3):
         for sc in (0.25, 3.0):
             for meth in ("MS", "SS", "DC"):
@@ -140,6 +144,45 @@ def run_chain_scale(case):
             raise
         vios.append(dict(sig="exception:chain_scale:%s" % (fr or type(e_).__name__), tags=tags, detail="%s: %s" % (type(e_).__name__, str(e_)[:200])))
     return dict(violations=vios, evaluations=k + 1, traces=1, transitions=1, outcome=explore.sha(case), nontrivial=True, sample=case)
+
+
+def run_domain_scale(case):
+    """a scaled quantity declared with domain='integer' is still scale times its own solver variable"""
+    import rockit, casadi as ca, sys
+    what, sc, meth = case["what"], case["scale"], case["method"]
+    tags = ["domain=integer", "what=%s" % what, "scale=%g" % sc, "method=%s" % meth]
+    vios = []
+    try:
+        ocp = rockit.Ocp(t0=0.2, T=1.4)
+        x = ocp.state()
+        if what == "control":
+            q = ocp.control(scale=sc, domain="integer"); ocp.set_der(x, -0.5 * x + q)
+        else:
+            u = ocp.control(); ocp.set_der(x, -0.5 * x + u)
+            if what == "variable":
+                q = ocp.variable(scale=sc, domain="integer")
+            else:
+                q = ocp.variable(grid="control", scale=sc, domain="integer")
+            ocp.subject_to(x <= 5 + q)
+        ocp.subject_to(ocp.at_t0(x) == 0.3)
+        ocp.add_objective(ocp.integral(x * x) + ocp.at_tf(x) ** 2)
+        ocp.solver("ipopt", {"ipopt.print_level": 0, "print_time": False, "ipopt.sb": "yes"})
+        ocp.method({"SS": rockit.SingleShooting(N=2), "MS": rockit.MultipleShooting(N=2), "DC": rockit.DirectCollocation(N=2, degree=2)}[meth])
+        nlp = NL.Nlp(ocp)
+        e = ocp.value(q) if what == "variable" else ocp.sample(q, grid="control-")[1]
+        w = NL.generic(nlp.nx, 0, 0, lo=-0.6, hi=0.9)
+        J = np.array(ca.Function("J", [nlp.x, nlp.p], [ca.jacobian(ca.vec(ca.MX(e)), nlp.x)])(w, nlp.p0))
+        for r in range(J.shape[0]):
+            nz = J[r][np.abs(J[r]) > 1e-12]
+            if len(nz) != 1 or abs(nz[0] - sc) > 1e-9 * max(1, sc):
+                vios.append(dict(sig="value:scale:variable", tags=tags, detail="integer-domain %s with scale %g: d(physical)/d(solver variables) = %s, expected one entry equal to the scale" % (what, sc, np.round(nz, 6).tolist())))
+                break
+    except Exception as e_:
+        fr = core.rockit_frame(sys.exc_info()[2])
+        if fr is None and not isinstance(e_, (RuntimeError, AssertionError)):
+            raise
+        vios.append(dict(sig="exception:domain_scale:%s" % (fr or type(e_).__name__), tags=tags, detail="%s: %s" % (type(e_).__name__, str(e_)[:200])))
+    return dict(violations=vios, evaluations=1, traces=1, transitions=1, outcome=explore.sha(case), nontrivial=True, sample=case)
 
 
 def scale_of(d, key, n):
@@ -212,11 +255,13 @@ def semantics(case, res, tags):
 def run_case(case):
     if case.get("kind") == "chain_scale":
         return run_chain_scale(case)
+    if case.get("kind") == "domain_scale":
+        return run_domain_scale(case)
     return _trans.run_trans(case, OWN, extra_check=semantics)
 
 
 def describe(tier):
     return dict(
-        rule="(controls of order 1..3 with a scale x method: every chain member is scale times its own solver variable) (matrix-valued state with element-wise state / derivative scales; scaled constraints on the integrator and collocation-point grids) deviation-bounded enumeration over 8 scale slots (state scalar/element-wise, control, global and per-interval variable, algebraic, set_der, add_alg, constraint) x method/degree/grid/N/M/DAE/horizon; objective equal to the unscaled reference, user-constraint rows and bounds equal reference/scale, dynamics rows equal up to one positive constant per row, every decision coordinate moves its physical read-back by exactly the declared scale, starting point equals the guesses in physical units",
+        rule="(integer-domain controls / variables with a scale: scale times their own solver variable) (controls of order 1..3 with a scale x method: every chain member is scale times its own solver variable) (matrix-valued state with element-wise state / derivative scales; scaled constraints on the integrator and collocation-point grids) deviation-bounded enumeration over 8 scale slots (state scalar/element-wise, control, global and per-interval variable, algebraic, set_der, add_alg, constraint) x method/degree/grid/N/M/DAE/horizon; objective equal to the unscaled reference, user-constraint rows and bounds equal reference/scale, dynamics rows equal up to one positive constant per row, every decision coordinate moves its physical read-back by exactly the declared scale, starting point equals the guesses in physical units",
         bound="k<=%d deviations" % (4 if tier == "thorough" else 3),
         assumptions=["CasADi Function evaluation and Opti bookkeeping are trusted", "generic-point alphabet", "gap / continuity / algebraic rows may carry any positive per-row constant; collocation residuals must carry exactly 1/scale_der"])
